@@ -259,7 +259,7 @@ pub fn run(ctx: &Ctx) -> Outcome {
     }
     // proptest
     let strat = (gens::arb_rule(), 1600i64..2400, prop_oneof![8 => Just(0i64), 1 => -5368708i64..5368708]).prop_map(|(cr, y, k): (ClassedRule, i64, i64)| RuleCase { rule: cr.rule, y0: y + 400 * k, instants: vec![] });
-    let cases = ctx.tier.pick(2_500u32, 40_000u32);
+    let cases = ctx.tier.pick(8_000u32, 40_000u32);
     let rs = par_shards(16, |shard, st| pt_shard(ctx, "rule", shard, cases, &strat, st, check_rule));
     out.absorb_all(rs);
     if out.failure.is_some() {
